@@ -1,5 +1,5 @@
 (* C09: the leaf instances and their names after flatten of a uniquified design.
-   [pname] (Proofs/FlatWalk.v) is the name the code computes; here it is related to the slash-joined
+   [fname] (Proofs/FlatWalk.v) is the name the code computes; here it is related to the slash-joined
    names along the path, and the set of children of the top definition is characterised. *)
 From Coq Require Import List Arith NArith Bool Lia.
 From SV Require Import Base.Base IR.State IR.NS IR.Ops Xform.Clone Xform.Strs Xform.Xform Hier.Paths
@@ -46,31 +46,64 @@ Lemma onames_cons2 s c y p :
   onames s (c :: y :: p) = match onames s (y :: p), get_str s c str_NAME with
                            | Some l, Some nm => Some (l ++ [nm]) | _, _ => None end.
 Proof. reflexivity. Qed.
-Lemma pname_cons2 s c y p :
-  pname s (c :: y :: p) = match pname s (y :: p) with Some a => joino a (get_str s c str_NAME) | None => None end.
+Lemma fname_cons s c p : fname s (c :: p) = joino (pname s p) (get_str s c str_NAME).
 Proof. reflexivity. Qed.
 
-Lemma Forall_removelast {A} (P : A -> Prop) (l : list A) : Forall P l -> Forall P (removelast l).
-Proof.
-  induction 1 as [|a l Ha Hl IH]; [constructor|]. cbn. destruct l; [constructor|]. constructor; [exact Ha|exact IH].
-Qed.
+(* the same names with a missing name counted as the empty string (what _name_in_path hands on) *)
+Fixpoint enames (s : state) (p : list id) : list str :=
+  match p with
+  | [] => []
+  | c :: p' =>
+      match p' with
+      | [] => []
+      | _ :: _ => enames s p' ++ [oe (get_str s c str_NAME)]
+      end
+  end.
 
-(* the code's name is the slash-joined path name whenever no hierarchical instance on the path has
-   the empty string as its name *)
-Lemma pname_join s : forall p l,
-  onames s p = Some l -> Forall (fun a : str => a <> []) (removelast l) -> pname s p = Some (join_slash l).
+Lemma enames_cons2 s c y p : enames s (c :: y :: p) = enames s (y :: p) ++ [oe (get_str s c str_NAME)].
+Proof. reflexivity. Qed.
+
+Lemma onames_enames s : forall p l, onames s p = Some l -> enames s p = l.
 Proof.
-  induction p as [|c p IH]; intros l E H; [injection E as <-; reflexivity|].
+  induction p as [|c p IH]; intros l E; [injection E as <-; reflexivity|].
   destruct p as [|y p]; [injection E as <-; reflexivity|].
-  rewrite onames_cons2 in E.
+  rewrite onames_cons2 in E. rewrite enames_cons2.
   destruct (onames s (y :: p)) as [l'|] eqn:El; [|discriminate E].
   destruct (get_str s c str_NAME) as [nm|] eqn:En; [|discriminate E].
-  injection E as <-. rewrite removelast_last in H.
-  rewrite pname_cons2, (IH l' eq_refl (Forall_removelast _ _ H)), En.
-  destruct l' as [|b l'].
+  injection E as <-. rewrite (IH l' eq_refl). reflexivity.
+Qed.
+
+(* the code's flat name, a missing name read as "", is the slash-joined list of the names along the path *)
+Lemma fname_enames s : forall p c y, oe (fname s (c :: y :: p)) = join_slash (enames s (c :: y :: p)).
+Proof.
+  induction p as [|z q IH]; intros c y.
   - reflexivity.
-  - assert (Hne : join_slash (b :: l') <> []) by (apply join_slash_nonempty; [discriminate|exact H]).
-    rewrite join_slash_snoc by discriminate. destruct (join_slash (b :: l')) eqn:Ej; [contradiction|]. reflexivity.
+  - rewrite fname_cons, pname_cons2, (IH y z), (enames_cons2 s c y (z :: q)). cbn [joino oe].
+    rewrite join_slash_snoc; [reflexivity|]. rewrite enames_cons2. intro H. apply app_eq_nil in H as [_ H]. discriminate H.
+Qed.
+
+(* two or more levels below the top instance there is always a flat name *)
+Lemma fname_deep s c y z p : fname s (c :: y :: z :: p) = Some (join_slash (enames s (c :: y :: z :: p))).
+Proof. rewrite <- fname_enames. reflexivity. Qed.
+
+(* when every instance on the path has a name - the empty string included - the code's flat name is the
+   slash-joined list of those names *)
+Lemma fname_join s p l : onames s p = Some l -> l <> [] -> fname s p = Some (join_slash l).
+Proof.
+  intros E Hne. destruct p as [|c [|y p]]; [injection E as <-; contradiction|injection E as <-; contradiction|].
+  pose proof (onames_enames s _ _ E) as Ee. rewrite onames_cons2 in E.
+  destruct (onames s (y :: p)) as [l'|] eqn:El; [|discriminate E].
+  destruct (get_str s c str_NAME) as [nm|] eqn:En; [|discriminate E]. injection E as <-.
+  destruct p as [|z q].
+  - injection El as <-. rewrite fname_cons, En. reflexivity.
+  - rewrite fname_deep, Ee. reflexivity.
+Qed.
+
+Lemma onames_nonempty s c y p l : onames s (c :: y :: p) = Some l -> l <> [].
+Proof.
+  rewrite onames_cons2. destruct (onames s (y :: p)) as [l'|]; [|discriminate].
+  destruct (get_str s c str_NAME) as [nm|]; [|discriminate]. intros E H. injection E as <-.
+  apply app_eq_nil in H as [_ H]. discriminate H.
 Qed.
 
 Section Results.
@@ -103,24 +136,24 @@ Section Results.
 
   (* NAMES *)
   Theorem flatten_name_code c y p :
-    is_rpath (st x) t (c :: y :: p) -> get_str (st x') c str_NAME = pname (st x) (c :: y :: p).
+    is_rpath (st x) t (c :: y :: p) -> get_str (st x') c str_NAME = fname (st x) (c :: y :: p).
   Proof. destruct (flatten_spec fuel x n x' t topd U0 Hu Htop Ht E) as [done [F _]]. apply (fs_namei _ _ _ _ _ F). Qed.
 
+  (* "named by the slash-joined instance names along the path", whatever those names are *)
   Theorem flatten_name_joined c y p l :
     is_rpath (st x) t (c :: y :: p) -> onames (st x) (c :: y :: p) = Some l ->
-    Forall (fun a : str => a <> []) (removelast l) ->
     get_str (st x') c str_NAME = Some (join_slash l).
-  Proof. intros Hp Hl Hne. rewrite (flatten_name_code c y p Hp). apply pname_join; assumption. Qed.
+  Proof. intros Hp Hl. rewrite (flatten_name_code c y p Hp). apply fname_join; [exact Hl|apply (onames_nonempty _ _ _ _ _ Hl)]. Qed.
 
-  (* an unnamed child of the top definition stays unnamed; below a named prefix every instance
-     that came up had a name (otherwise the call raises and does not complete) *)
+  (* an unnamed child of the top definition stays unnamed; anywhere below, a missing name on the path
+     counts as the empty string, so the instance has a flat name *)
   Theorem flatten_top_child_name c : is_rpath (st x) t [c; t] -> get_str (st x') c str_NAME = get_str (st x) c str_NAME.
   Proof. intro Hp. rewrite (flatten_name_code c t [] Hp). reflexivity. Qed.
 
-  Theorem flatten_named_below c y p :
-    is_rpath (st x) t (c :: y :: p) ->
-    exists a, pname (st x) (y :: p) = Some a /\ (a <> [] -> get_str (st x) c str_NAME <> None).
-  Proof. destruct (flatten_spec fuel x n x' t topd U0 Hu Htop Ht E) as [done [F _]]. apply (fs_named _ _ _ _ _ F). Qed.
+  Theorem flatten_name_missing_as_empty c y z p :
+    is_rpath (st x) t (c :: y :: z :: p) ->
+    get_str (st x') c str_NAME = Some (join_slash (enames (st x) (c :: y :: z :: p))).
+  Proof. intro Hp. rewrite (flatten_name_code c y (z :: p) Hp). apply fname_deep. Qed.
 
   (* data other than the name, EDIF.identifier and the namespace tag is unchanged, on every object *)
   Theorem flatten_data y k :
